@@ -21,6 +21,7 @@ import (
 
 	"github.com/evolbioinfo/goalign/align"
 
+	"verif/lib/fmtio"
 	"verif/lib/gen"
 	"verif/lib/mon"
 )
@@ -292,9 +293,9 @@ func cliFits(rows []row, alpha string) bool {
 func genCli(r *gen.Rand, idx int) cliCase {
 	k := cliCase{}
 	k.Cmd = []string{"dedup", "dedup", "compress"}[idx%3]
-	modes := []string{"fasta", "phylip", "unaligned", "auto-phylip", "phylip", "unaligned", "auto-fasta"}
+	modes := []string{"fasta", "phylip", "unaligned", "auto-phylip", "phylip", "unaligned", "auto-fasta", "clustal", "auto-clustal"}
 	if k.Cmd == "compress" {
-		modes = []string{"fasta", "phylip", "phylip", "auto-phylip", "auto-fasta"}
+		modes = []string{"fasta", "phylip", "phylip", "auto-phylip", "auto-fasta", "auto-clustal"}
 	}
 	k.Mode = modes[(idx/3)%len(modes)]
 	aligned := k.Mode != "unaligned"
@@ -305,6 +306,9 @@ func genCli(r *gen.Rand, idx int) cliCase {
 	}
 	nt := r.Chance(0.55)
 	pool := cliNamePools[r.PickInt([]int{0, 0, 1, 2})]
+	if strings.HasSuffix(k.Mode, "clustal") {
+		pool = cliNamePools[r.PickInt([]int{0, 2})] // the input file is written by goalign's own Clustal writer: plain names
+	}
 	if k.Cmd == "dedup" {
 		k.NAsGap = (idx/3/len(modes))%2 == 0
 	}
@@ -441,6 +445,21 @@ func runCli(c *mon.Case) {
 			}
 		}
 	}
+	clu := strings.HasSuffix(k.Mode, "clustal")
+	if clu {
+		// Clustal declares no alphabet (same expectations as FASTA); the input is written by the library's writer
+		wa := align.AMINOACIDS
+		if cliFits(k.Alns[0], "nt") {
+			wa = align.NUCLEOTIDS
+		}
+		al, err := mkAlign(k.Alns[0], wa)
+		if err != nil {
+			c.Count("cli:clustal-input-not-writable")
+			return
+		}
+		in.Reset()
+		in.WriteString(fmtio.ByName("clustal").Write(al))
+	}
 	inFile, outFile := filepath.Join(dir, "in.txt"), filepath.Join(dir, "out.txt")
 	logFile, wFile := filepath.Join(dir, "log.txt"), filepath.Join(dir, "weights.txt")
 	if err := os.WriteFile(inFile, []byte(in.String()), 0644); err != nil {
@@ -450,8 +469,10 @@ func runCli(c *mon.Case) {
 	switch k.Mode {
 	case "phylip":
 		args = append(args, "-p")
-	case "auto-fasta", "auto-phylip":
+	case "auto-fasta", "auto-phylip", "auto-clustal":
 		args = append(args, "--auto-detect")
+	case "clustal":
+		args = append(args, "-u")
 	case "unaligned":
 		args = append(args, "--unaligned")
 	}
@@ -565,6 +586,16 @@ func runCli(c *mon.Case) {
 			return
 		}
 		got = g
+	} else if clu {
+		oal, perr := fmtio.ByName("clustal").Parse(strings.NewReader(text), align.IGNORE_NONE, align.BOTH)
+		if perr != nil {
+			fail("output-unreadable", "the Clustal text written is refused by the Clustal parser: %v", perr)
+			return
+		}
+		got = [][]row{snapAll(oal)}
+		for i := range got[0] {
+			got[0][i].Comment = ""
+		}
 	} else {
 		got = [][]row{cliParseFasta(text)}
 	}
